@@ -410,7 +410,7 @@ def _r2(chk, repo, m) -> None:
     if skip_param is None:
         raise AnchorError("C23.R2: could not bind the skip-set parameter of validate_graph")
     vw_params = [a.arg for a in vw.args.posonlyargs + vw.args.args + vw.args.kwonlyargs]
-    vg_call = next((x for n in _call_nodes(cfg, "validate_graph") for x in exprs_in_node(n) if isinstance(x, ast.Call) and last(call_name(x)) == "validate_graph"), None)
+    vg_call = next((x for x in walk_shallow(vw) if isinstance(x, ast.Call) and last(call_name(x)) == "validate_graph"), None)
     if vg_call is None:
         raise AnchorError("C23.R2: `_validate_workflow` no longer calls validate_graph")
     passed = kwarg(vg_call, skip_param, gparams.index(skip_param))
@@ -421,7 +421,7 @@ def _r2(chk, repo, m) -> None:
            reason=f"validate_graph receives `{ast.unparse(passed) if passed is not None else 'nothing'}` as its skip set, not the parameter of _validate_workflow")
     mw, wv = repo.func(f"{WF}:Workflow._validate")
     wcfg = CFG(wv)
-    vw_call = next((x for n in _call_nodes(wcfg, "_validate_workflow") for x in exprs_in_node(n) if isinstance(x, ast.Call) and last(call_name(x)) == "_validate_workflow"), None)
+    vw_call = next((x for x in walk_shallow(wv) if isinstance(x, ast.Call) and last(call_name(x)) == "_validate_workflow"), None)
     if vw_call is None:
         raise AnchorError("C23.R2: `Workflow._validate` no longer calls _validate_workflow")
     attr_ok = False
@@ -781,7 +781,7 @@ TWINS = [
          "            if issubclass(event_type, StopEvent):\n                steps_accepting_stop_event.append(name)\n            break\n", "C23.R3"),
     Twin("any externally supplied event counts as human input", _V, "    return (\n" + _HITL_OLD + "    )\n",
          "    return bool(consumed_events - produced_events) or any(issubclass(e, InputRequiredEvent) for e in produced_events)\n", "C23.R3"),
-    Twin("repair keeps only the produced side", _V, "    return (\n" + _HITL_OLD + "    )\n", "    return any(issubclass(e, InputRequiredEvent) for e in produced_events)\n", None),
+    Twin("partial repair: produced side only (the consumed-side finding stays, nothing new)", _V, "    return (\n" + _HITL_OLD + "    )\n", "    return any(issubclass(e, InputRequiredEvent) for e in produced_events)\n", None),
     Twin("two wildcard handlers allowed", _V, "    if len(wildcard_handlers) > 1:", "    if len(wildcard_handlers) > 2:", "C23.R3"),
     Twin("double claim check dropped for the first handler", _V, "            if target in claim_owner:\n", "            if target in claim_owner and claim_owner[target] != \"h1\":\n", "C23.R3"),
     Twin("benign: count via != 1", _V, "    num_found = len(stop_events_found)\n    if num_found == 0:", "    num_found = len(stop_events_found)\n    if not stop_events_found:", None),
